@@ -60,9 +60,11 @@ type p2pRun struct {
 	genesis  types.Hash
 	nextPeer uint64
 	hangs    int
-	byHash   map[types.Hash]uint64
-	hashes   []types.Hash // index = height-1
-	blocks   []*nom.AccountBlock
+	// sessTimeout: how long a session may stay silent before it counts as hanging (0 = 20 s)
+	sessTimeout time.Duration
+	byHash      map[types.Hash]uint64
+	hashes      []types.Hash // index = height-1
+	blocks      []*nom.AccountBlock
 }
 
 type inMsg struct {
@@ -139,10 +141,14 @@ func (r *p2pRun) session(first *p2p.Msg, test *p2p.Msg) *sessionResult {
 		}
 		app.WriteMsg(p2p.Msg{Code: probeCode, Size: 0, Payload: bytes.NewReader(nil)})
 	}()
+	wait := r.sessTimeout
+	if wait == 0 {
+		wait = 20 * time.Second
+	}
 	select {
 	case out := <-done:
 		res.runErr, res.panicked = out.err, out.pn
-	case <-time.After(20 * time.Second):
+	case <-time.After(wait):
 		res.hang = true
 	}
 	app.Close()
@@ -606,6 +612,12 @@ func (r *p2pRun) genMessage() (uint64, uint32, []byte, string) {
 
 func init() {
 	register("p2p", func(c *Ctx) {
+		// ---- liveness part, on a short-lived node of its own (the mock node installs process-wide state — its clock —, so this
+		//      node is created and stopped before the main one exists): after every refused input the node still works, see
+		//      s_p2p_live.go
+		if c.Args["live"] != "off" {
+			p2pLiveness(c, 3)
+		}
 		a := newProducer()
 		defer a.stop()
 		H := 530 // above MaxHashFetch, so that an uncapped reply is visible
@@ -716,6 +728,13 @@ func init() {
 				code, size, pay, label = r.genMessage()
 			}
 			r.oneMessage(code, size, pay, label)
+			// whatever the message was, the chain's insert lock is free again (a delivery handed to the fetcher is imported on its
+			// own goroutine and holds the lock for the duration of the import only)
+			if !r.lockProbe(liveLockDeadline) {
+				c.Fail("C15 class=stalled-insert-lock after code=%d size=%d [%s] payload=%s the chain's insert lock cannot be taken within %v: every "+
+					"later insertion of the node blocks", code, size, label, hexHead(pay, 48), liveLockDeadline)
+				return
+			}
 			if r.hangs >= 3 {
 				c.Fail("C15 class=hang stream stopped after %d sessions that neither answered nor disconnected", r.hangs)
 				return
